@@ -1,13 +1,16 @@
 """runs the REAL MoleculeIterator (singlecellmultiomics.molecule.iterator) on in-memory pysam reads for C07.
 
 payload: {'cases': [{'frags': [spec...], 'cls': 'Fragment'|'HashedFragment', 'cfgs': [cfg...]}]}
-  spec = {'chrom': int, 'r1': [start, len, reverse] | None, 'r2': [start, len, reverse] | None,
-          'sm': int, 'rx': str, 'qcfail': bool}
+  spec = {'chrom': int, 'r1': [start, reflen, reverse(, deletion)] | None, 'r2': same | None,
+          'sm': int, 'rx': str, 'qcfail': bool}   (deletion d>0: cigar aM dD bM, a+b = reflen-d)
+  cls 'CHIC' = the real CHICFragment + CHICMolecule (site anchored; compared with the specification only)
   cfg  = {'every': int|None, 'pooling': 0|1, 'cache': int, 'radius': int, 'hd': int, 'yield_invalid': bool}
 result per case: {'abs': [abstract fragment per spec, through the implementation's own accessors],
                   'runs': [{'steps': [[mol...] per consumed fragment], 'flush': [mol...], 'ok': bool,
                             'error': str|None, 'late': [...]}]}
-  mol = [ids, sample, strand, chrom, spanStart, spanEnd, umi]"""
+  mol = [ids, sample, strand, chrom, spanStart, spanEnd, umi]
+  abstract fragment = [id, valid, sample, strand, contig, start, end, umi, hash,  oracle span [contig,start,end]
+  recomputed from pysam reference_start/reference_end by the documented rule, arrival coordinate]"""
 import os, sys
 import fw
 
@@ -16,8 +19,8 @@ NCHROM = 4
 
 def handler(p):
     import pysam
-    from singlecellmultiomics.molecule import MoleculeIterator, Molecule
-    from singlecellmultiomics.fragment import Fragment
+    from singlecellmultiomics.molecule import MoleculeIterator, Molecule, CHICMolecule
+    from singlecellmultiomics.fragment import Fragment, CHICFragment
 
     class HashedFragment(Fragment):
         """a Fragment whose buffer key is (sample, contig, strand), the way SingleEndTranscriptFragment sets it"""
@@ -25,7 +28,8 @@ def handler(p):
             Fragment.__init__(self, reads, **kwargs)
             self.match_hash = (self.sample, self.span[0], self.strand)
 
-    classes = {'Fragment': Fragment, 'HashedFragment': HashedFragment}
+    classes = {'Fragment': Fragment, 'HashedFragment': HashedFragment, 'CHIC': CHICFragment}
+    molclasses = {'Fragment': Molecule, 'HashedFragment': Molecule, 'CHIC': CHICMolecule}
     header = pysam.AlignmentHeader.from_dict({
         'HD': {'VN': '1.6', 'SO': 'coordinate'},
         'SQ': [{'SN': 'chr%d' % i, 'LN': 10 ** 9} for i in range(NCHROM)]})
@@ -36,13 +40,20 @@ def handler(p):
         r = spec['r%d' % which]
         if r is None:
             return None
-        start, ln, rev = r
+        start, ln, rev = r[:3]
+        dele = r[3] if len(r) > 3 else 0
         a = pysam.AlignedSegment(header)
         a.query_name = 'f%d' % idx
         a.reference_id = spec['chrom']
         a.reference_start = start
-        a.query_sequence = 'A' * ln
-        a.cigarstring = '%dM' % ln
+        q = ln - dele
+        a.query_sequence = ('ACGTTGCA' * (q // 8 + 1))[:q]
+        if dele > 0:
+            left = q // 2
+            a.cigarstring = '%dM%dD%dM' % (left, dele, q - left)
+        else:
+            a.cigarstring = '%dM' % ln
+        assert a.reference_end == start + ln
         a.mapping_quality = 60
         flag = 16 if rev else 0
         if spec['r1'] is not None and spec['r2'] is not None:
@@ -75,6 +86,18 @@ def handler(p):
     def z(x):
         return -1 if x is None else int(x)
 
+    def oracle_span(r1, r2):
+        """the span rule of Fragment.update_span restated on pysam's own reference_start / reference_end"""
+        if r1 is not None and r2 is not None:
+            name = r1.reference_name
+            if r1.is_reverse and not r2.is_reverse:
+                return [chrom_code[name], r2.reference_start, r1.reference_end]
+            if not r1.is_reverse and r2.is_reverse:
+                return [chrom_code[name], r1.reference_start, r2.reference_end]
+            return [chrom_code[name], min(r1.reference_start, r2.reference_start), max(r1.reference_start, r2.reference_start)]
+        r = r1 if r1 is not None else r2
+        return [chrom_code[r.reference_name], r.reference_start, r.reference_end]
+
     def enc_mol(m):
         return [[fid(f) for f in m.fragments], smp(m.sample), scode(m.strand), chrom_code[m.chromosome],
                 z(m.spanStart), z(m.spanEnd), m.get_umi()]
@@ -89,12 +112,14 @@ def handler(p):
         absf = []
         fresh = []
         for i, (r1, r2) in enumerate(pairs(specs)):
+            osp = oracle_span(r1, r2)
+            arrival = max(r.reference_start for r in (r1, r2) if r is not None)
             f = cls([r1, r2], assignment_radius=0, umi_hamming_distance=0)
             fresh.append(f)
             sp = f.get_span()
             h = hashes.setdefault(f.match_hash, len(hashes))
             absf.append([i, bool(f.is_valid()), smp(f.get_sample()), scode(f.get_strand()), chrom_code[sp[0]],
-                         z(sp[1]), z(sp[2]), f.get_umi(), h])
+                         z(sp[1]), z(sp[2]), f.get_umi(), h, osp, arrival])
         runs = []
         for cfg in case['cfgs']:
             cons = [0]
@@ -111,7 +136,7 @@ def handler(p):
             old = sys.stdout
             sys.stdout = devnull
             try:
-                it = MoleculeIterator(src(pairs(specs)), molecule_class=Molecule, fragment_class=cls,
+                it = MoleculeIterator(src(pairs(specs)), molecule_class=molclasses[case['cls']], fragment_class=cls,
                                       check_eject_every=cfg['every'], pooling_method=cfg['pooling'],
                                       perform_qflag=False, yield_invalid=cfg['yield_invalid'],
                                       molecule_class_args={'cache_size': cfg['cache']},
